@@ -132,6 +132,29 @@ def blocks_of(func):
     return blocks, fors
 
 
+def conds_of(func):
+    """all if / while / do nodes of the function body in traversal order (their condition can name a variable)"""
+    out = []
+
+    def st(s):
+        if isinstance(s, M.Block):
+            for x in s.stmts:
+                st(x)
+        elif isinstance(s, M.If):
+            out.append(s)
+            st(s.then)
+            if s.els is not None:
+                st(s.els)
+        elif isinstance(s, M.For):
+            st(s.body)
+        elif isinstance(s, (M.While, M.Do)):
+            out.append(s)
+            st(s.body)
+
+    st(func.body)
+    return out
+
+
 def variants(specs):
     """-> list of (kind, position descriptor, name)"""
     prog, names = skeleton(specs)
@@ -149,6 +172,11 @@ def variants(specs):
     for fi in range(len(fors)):
         for nm in names:
             out.append(("decl", ("for-header", fi, 0), nm))
+    # the condition of every if / while / do names a variable: visible there or not (e.g. declared by its own body)
+    for ci in range(len(conds_of(f))):
+        for nm in names:
+            if nm != "r":
+                out.append(("use", ("condition", ci, 0), nm))
     return out
 
 
@@ -161,6 +189,8 @@ def apply_variant(specs, kind, pos, name):
     if where == "block":
         stmt = M.Decl(INT, name, lit(77)) if kind == "decl" else use_stmt(name)
         blocks[k].stmts.insert(idx, stmt)
+    elif where == "condition":
+        conds_of(f)[k].cond = M.Bin("<", M.Var(name, INT), lit(0))
     else:
         fr = fors[k]
         old = fr.init.name
@@ -250,7 +280,7 @@ def reuse_case(ctx, case):
     if errs:
         # the generator only reuses names of *closed* scopes; anything else is our bug
         raise AssertionError("generator produced a program the scope model rejects: %r\n%s" % (errs, case.source()))
-    c01.check_case(ctx, case, nontrivial=(lambda tr: reused and tr.get("op", 0) >= 1))
+    c01.check_case(ctx, case, nontrivial=(lambda tr: reused and tr.get("op", 0) >= 1), exact_floats=True)
 
 
 def across_functions_case(ctx, case):
